@@ -227,6 +227,9 @@ def hubDelete (o : HObj) : HObj := { o with final := none }
 /-- hub compaction consumed the file: `MarkCompacted` (an UPDATE) then the source deletion (which may fail). -/
 def hubCompact (o : HObj) (del : Bool) : HObj :=
   { o with idx := o.idx.map (fun p => (p.1, true)), final := if del then none else o.final }
+/-- the second step of hub compaction, possibly much later (retry after a failed deletion): the source
+file is removed; its content lives on in the compacted output. -/
+def hubCompactDelete (o : HObj) : HObj := { o with final := none }
 def hubSweep (o : HObj) : HObj := { o with sfull := none, spart := none }
 
 /-! ## spoke -/
